@@ -579,3 +579,72 @@ def rule_field_walkers(ctx, prop):
                               f"`-- stylua: ignore` is reformatted (e.g. by range formatting with the range inside the field)", f.loc(), cfg)
         rep.floor("table-field walkers that format inside fields", n, 1, cfg)
     return rep
+
+
+def rule_sort_emit(ctx, prop):
+    """the sort pass is a second walk over the block's statements: its `ignore start` / `ignore end` state is right only if
+    every statement it hands on was first shown to check_toggle_formatting, in order"""
+    rep = Report(prop, "R-SORT(toggle)", "in sort_requires every site that adds statements of a partition to the rebuilt block is "
+                                         "dominated by the head of a loop over that partition's statements that calls "
+                                         "check_toggle_formatting: no partition is emitted without its directives being seen")
+    for cfg, prog in ctx.programs.items():
+        f = prog.fn("stylua_lib", "sort_requires::sort_requires")
+        if not rep.anchor(f is not None, "sort_requires::sort_requires", cfg):
+            continue
+        ws = [(b, t) for b, t in f.calls() if callee(t).endswith("Block::with_stmts")]
+        if not rep.anchor(len(ws) == 1 and len(ws[0][1]["args"]) > 1, "one Block::with_stmts call", cfg):
+            continue
+        out = {r for r in provenance(f, ws[0][1]["args"][1], into_aggs=False)}
+        out_calls = {r[2] for r in out if r[0] == "call"}
+        # outer loop: the `next` over the partitions
+        heads = [b for b, t in f.calls() if re.search(r"Iterator>::next$|iter::Iterator::next$", callee(t)) and _in_cycle(f, b)]
+        toggles = [b for b, t in f.calls() if callee(t) == TOGGLE]
+        for b, t in f.calls():
+            g = prog.fn("stylua_lib", callee(t))
+            if g is not None and g is not f and any(callee(t2) == TOGGLE and _in_cycle(g, b2) for b2, t2 in g.calls()):
+                toggles.append(b)
+        if not rep.anchor(bool(toggles), "check_toggle_formatting calls in sort_requires", cfg):
+            continue
+        dom = f.dominators()
+        outer = [h for h in heads if all(h in dom.get(tb, ()) for tb in toggles)]
+        outer = [h for h in outer if not any(o != h and h in dom.get(o, ()) and o in outer for o in outer)] or outer
+        # innermost common head = the partition loop
+        if not rep.anchor(bool(outer), "loop over the partitions (a `next` dominating every toggle call)", cfg):
+            continue
+        part_head = max(outer, key=lambda h: len(dom.get(h, ())))
+        inner = set()
+        for tb in toggles:
+            for h in heads:
+                if h != part_head and h in dom.get(tb, ()) and tb in f.reach_from(h) and h in f.reach_from(tb, avoid={part_head}):
+                    inner.add(h)
+        # a helper that walks the statements it is given (`group_contains_ignored(&mut ctx, list.iter())`) is the same walk
+        for b, t in f.calls():
+            if part_head not in dom.get(b, ()) or b == part_head:
+                continue
+            g = prog.fn("stylua_lib", callee(t))
+            if g is not None and g is not f and any(callee(t2) == TOGGLE and _in_cycle(g, b2) for b2, t2 in g.calls()):
+                inner.add(b)
+        emits = []
+        for b, t in f.calls():
+            c = callee(t)
+            if not re.search(r"Vec::<.*>::(push|append|extend_from_slice|insert)$|Extend<.*>>::extend$|Vec<.*>::(push|append)$", c) or not t["args"]:
+                continue
+            pr = provenance(f, t["args"][0], into_aggs=False)
+            if not ({r[2] for r in pr if r[0] == "call"} & out_calls or (pr & out)):
+                continue
+            if part_head not in dom.get(b, ()):
+                continue
+            emits.append((b, t))
+        n = 0
+        for b, t in emits:
+            n += 1
+            ok = any(h in dom.get(b, ()) for h in inner)
+            rep.inst(f"{f.key} emit site #{n} ({callee(t).split('::')[-1]}) follows a toggle walk over the partition", {"at": f.loc(t["sp"])}, cfg, ok=ok)
+            if not ok:
+                rep.violation(f"{f.key} partition-emitted-without-toggle-walk via={callee(t).split('::')[-1]}",
+                              f"sort_requires adds the statements of a partition to the rebuilt block on a path that never entered a "
+                              f"loop calling check_toggle_formatting on them: an `-- stylua: ignore start` / `ignore end` comment on "
+                              f"such a statement is not seen by the sort pass, so later require groups inside the region are "
+                              f"reordered (or groups after the region stay unsorted)", f.loc(t["sp"]), cfg)
+        rep.floor("statement emit sites in sort_requires", n, 2, cfg)
+    return rep
